@@ -605,7 +605,7 @@ def txt_shape(path):
 def txt_proj_diff(prefix, proj) -> list:
     diffs = []
     for ext in ("dat", "smp", "cov"):
-        f = Path(str(prefix) + "." + ext)
+        f = Path(prefix).with_suffix("." + ext)      # where to_files puts it (also for a prefix with a dot)
         want = proj[ext]
         if not f.exists():
             if want["present"]:
@@ -628,8 +628,9 @@ def close_enough(w, r, decimals) -> bool:
 
 def run_txt(yaw, root, case, rng, tamper=None, vary=False):
     findings, drift = [], []
-    prefix = root / "prod"
     o = case.obj
+    # every third product goes to a prefix with a dot in its name (w_sp_z0.5, nz_0.2-0.8 ...): writer and reader must agree
+    prefix = root / ("prod_z0.5" if (o["nb"] + o["ns"] + len(o["dcls"])) % 3 == 0 else "prod")
     cm = quiet()
     try:
         x = None
@@ -650,7 +651,7 @@ def run_txt(yaw, root, case, rng, tamper=None, vary=False):
             y = cls.from_files(prefix)
         except Exception as e:  # noqa: BLE001
             icls = "num_bins=1" if o["nb"] == 1 else f"num_bins>1,value={o['dcls']}/{o['scls']}"
-            return [Finding(f"C11|{o['cls']}.from_files|{icls}|raises_{exc_name(e)}", error=repr(e), dat=Path(str(prefix) + ".dat").read_text())], drift
+            return [Finding(f"C11|{o['cls']}.from_files|{icls}|raises_{exc_name(e)}", error=repr(e), dat=(Path(prefix).with_suffix(".dat").read_text() if Path(prefix).with_suffix(".dat").exists() else None))], drift
     finally:
         cm.__exit__(None, None, None)
     ep = f"C11|{o['cls']}.txt"
@@ -693,7 +694,7 @@ def run_txt(yaw, root, case, rng, tamper=None, vary=False):
 
 
 def txt_tamper(prefix):
-    f = Path(str(prefix) + ".dat")
+    f = Path(prefix).with_suffix(".dat")
     lines = f.read_text().splitlines()
     i = max(k for k, ln in enumerate(lines) if not ln.startswith("#"))
     cols = lines[i].split()
